@@ -18,6 +18,13 @@ L3_ASSUME = [
     "one focal pipeline with two tasks a->b; histories of at most K events over at most N jobs",
 ]
 
+D = "github.com/Flowpack/prunner/definition"
+
+def defrun(entry, quick=None, thorough=None, reach=(), **kw):
+    d = {"pkg": D, "harness": ["harness/definition"], "entry": entry, "quick": quick or {}, "thorough": thorough or {}, "reach": list(reach), "replay": "harness"}
+    d.update(kw)
+    return d
+
 CHECKS = {
     "C01": {"prefixes": ["C01."], "assumptions": L3_ASSUME, "validate_samples": {"quick": 1, "thorough": 3},
             "runs": [bmc({"K": 4, "N": 4}, {"K": 5, "N": 4}, reach=["spawn.concurrent>1", "end"])]},
@@ -26,6 +33,8 @@ CHECKS = {
     "C03": {"prefixes": ["C03."], "assumptions": L3_ASSUME, "validate_samples": {"quick": 1, "thorough": 3},
             "runs": [bmc({"K": 4, "N": 4}, {"K": 5, "N": 4}, reach=["state.waiting", "cancel.waiting"]),
                      bmc({"K": 4, "N": 3, "reloads": 1, "reservedvar": 0, "taskerr": 0}, {"K": 5, "N": 3, "reloads": 1, "taskerr": 0}, reach=["reload"])]},
+    "C04": {"prefixes": ["C04."], "assumptions": L3_ASSUME, "validate_samples": {"quick": 1, "thorough": 3},
+            "runs": [bmc({"K": 4, "N": 4}, {"K": 5, "N": 4}, reach=["cancel.waiting", "cancel.running", "cancel.already-canceled", "cancel.completed"])]},
     "C05": {"prefixes": ["C05."], "assumptions": L3_ASSUME, "validate_samples": {"quick": 1, "thorough": 3},
             "runs": [bmc({"K": 4, "N": 4}, {"K": 5, "N": 4}, reach=["sched.start", "sched.append", "sched.replace", "sched.reject-full", "sched.reject-noqueue"])]},
     "C06": {"prefixes": ["C06."], "assumptions": L3_ASSUME, "validate_samples": {"quick": 1, "thorough": 3},
@@ -36,4 +45,14 @@ CHECKS = {
             "runs": [bmc({"K": 4, "N": 4}, {"K": 5, "N": 4}, reach=["end"])]},
     "C16": {"prefixes": ["C16."], "assumptions": L3_ASSUME, "validate_samples": {"quick": 1, "thorough": 3},
             "runs": [bmc({"K": 4, "N": 3, "reloads": 1, "reservedvar": 0, "taskerr": 0}, {"K": 5, "N": 3, "reloads": 1, "taskerr": 0}, reach=["reload"])]},
+    "C17": {"prefixes": ["C17."],
+            "assumptions": ["YAML decoding is a stub that fills the target with an arbitrary value of its type (yaml.v2 is not executed)",
+                            "globbing returns the two files in either order; os.Open succeeds for them",
+                            "shapes bounded: tasks/env/script/depends_on sizes as listed in bounds; strings are unbounded SMT strings"],
+            "runs": [defrun("VerifC17Validate", {"slice": 2, "map": 2}, {"slice": 2, "map": 2}, reach=["accepted", "rejected", "default-applied"]),
+                     defrun("VerifC17Strategy", reach=["append", "replace", "unknown"]),
+                     defrun("VerifC17EqualsTask", {"slice": 2, "map": 2}, {"slice": 2, "map": 2}, reach=["same", "different"]),
+                     defrun("VerifC17EqualsPipeline", {"slice": 1, "map": 1}, {"slice": 1, "map": 2}, reach=["same", "different"]),
+                     defrun("VerifC17EqualsSet", reach=["same-2"]),
+                     defrun("VerifC17Load", reach=["duplicate", "loaded", "invalid-file"], replay=None)]},
 }
